@@ -200,6 +200,20 @@ func generateMore(suite string, seed uint64, i int, r *rng, id string, g gp) *Ca
 		cfg := genCfg(r, cp{p1: []int{0, 1}, p2: []int{0}, p4: []int{1}, p5: []int{4}, trace: true, mon: true}, names)
 		cfg.Thor = []int{-1, -1, 28, 1, 100}[r.intn(5)]
 		return lay(cfg, edges)
+	case "e2e-huge": // sizes close to the top of the binary64 range: sums stay finite, careless intermediate expressions do not
+		k := r.rangeIn(10, 15)
+		var edges [][]string
+		for i := 0; i < k; i++ {
+			edges = append(edges, []string{"r", "c" + strconv.Itoa(i)})
+			if r.chance(1, 4) {
+				edges = append(edges, []string{"c" + strconv.Itoa(i), "d" + strconv.Itoa(r.intn(3))})
+			}
+		}
+		cfg := genCfg(r, cp{p1: []int{0, 1}, p2: []int{0, 1}, p4: []int{0, 1, 2}, p5: []int{0, 1, 2}, virt: 1}, usedNames(edges))
+		cfg.Sizes = nil
+		cfg.Fixed = []string{fs(1e307), fs(float64(1 + r.intn(60)))}
+		cfg.NS = fs(float64(r.intn(40)))
+		return &Case{ID: id, Op: "layout", Cfg: cfg, Edges: edges, Arg: map[string]any{"finiteonly": 1.0}}
 	case "e2e-dec": // C01: sizes and spacings that are not dyadic (decimals, thirds, tiny and huge values); no exact model
 		// comparison on these - the question is only whether every call returns
 		edges, names := genGraph(r, g)
@@ -703,10 +717,30 @@ func generateMore(suite string, seed uint64, i int, r *rng, id string, g gp) *Ca
 	case "concurrent": // C15
 		k := []int{2, 4, 8, 16, 32, 64}[r.intn(6)]
 		var runs []Run
+		wide := r.chance(1, 5) // layers wider than 32 nodes: per-call scratch buffers chosen by size
+		if wide && k > 8 {
+			k = 8
+		}
 		for j := 0; j < k; j++ {
 			g.maxN, g.maxM = 7, 10
 			edges, names := genGraph(r, g)
+			if wide {
+				edges = nil
+				w1, w2 := r.rangeIn(33, 40), r.rangeIn(33, 40)
+				for b := 0; b < w2; b++ {
+					for x := r.rangeIn(1, 3); x > 0; x-- {
+						edges = append(edges, []string{"t" + strconv.Itoa(r.intn(w1)), "b" + strconv.Itoa(b)})
+					}
+				}
+				for a := 0; a < w1; a++ {
+					edges = append(edges, []string{"t" + strconv.Itoa(a), "b" + strconv.Itoa(r.intn(w2))})
+				}
+				names = usedNames(edges)
+			}
 			cfg := genCfg(r, cp{p1: []int{0, 1}, p2: []int{0, 1}, p4: []int{0, 1, 2, 3, 4}, bk: allBK, p5: []int{0, 1, 2, 4}}, names)
+			if wide && cfg.P4 == 3 {
+				cfg.P4 = 1
+			}
 			runs = append(runs, Run{cfg, edges})
 		}
 		return &Case{ID: id, Op: "concurrent", Arg: map[string]any{"gomaxprocs": float64([]int{1, 2, 16}[r.intn(3)]), "rounds": 2.0, "timeout_ms": 60000.0}, Runs: runs}
